@@ -6,6 +6,7 @@ def _scale(k):
     return sorted(n.value for n in MusicMapping.KeyNoteMapping[k][0])
 
 
+@guarded
 def check_key(r, kname, t):
     k = Key[kname]
     res = Key.transpose_key(k, t)
@@ -18,6 +19,7 @@ def check_key(r, kname, t):
         return r.fail("transpose_key", [kname, t], "scale is not the shifted scale")
 
 
+@guarded
 def check_additive(r, kname, s, t):
     k = Key[kname]
     a = Key.transpose_key(Key.transpose_key(k, s), t)
@@ -26,6 +28,7 @@ def check_additive(r, kname, s, t):
         r.fail("additive", [kname, s, t], f"{a} vs {b}")
 
 
+@guarded
 def check_pair(r, a, b):
     d = CircleOfFifths.get_distance(a, b)
     if not (-5 <= d <= 6):
